@@ -196,6 +196,18 @@ P["C16"] = dict(
     ref="DESIGN.md 3 C16",
     note="Trusted base: TLC 1.8.0; Go crypto; leading-zero keys are found by rejection sampling (1/256 per coordinate).")
 
+P["C19"] = dict(
+    level="exploration", engine="robust",
+    technique="TLA+ outcome alphabet and exhaustive corruption-plan space (Robust.tla) enumerated by TLC; every plan executed "
+              "against the real entry points in worker subprocesses under recover + deadline; TLC trace validation of "
+              "random-input runs",
+    text="A TLA+ model cannot prove the absence of panics in this library or its dependencies; it contributes the "
+         "outcome alphabet and the complete structure-aware plan space, and the monitors (recover, deadline, subprocess "
+         "exit status) observe the real code on every plan and on seeded random inputs. Exhaustive over the plan "
+         "space, sampled over byte strings.",
+    ref="DESIGN.md 3 C19",
+    note="Trusted base: TLC 1.8.0; the Go runtime's panic / fatal-error reporting; inputs <= ~64 kB.")
+
 NOT_YET = {}
 
 
